@@ -345,7 +345,7 @@ PROPS["C15"] = dict(
     assumptions=["the backend answers every request (a backend that stalls is C09's subject)"],
 )
 
-HOOK_COMMITS = ["0596fc6", "c47bf54", "a8020ca", "beeea88", "49bef1d", "2596f07", "b167354"]
+HOOK_COMMITS = ["0596fc6", "c47bf54", "a8020ca", "beeea88", "49bef1d", "2596f07", "b167354", "6ba6667"]
 
 NOT_BUILT = "check not built yet in this round (design in DESIGN.md section 7); not claimed until its theorems and correspondence stream exist"
 NOT_APPLICABLE = {("C%02d" % i): NOT_BUILT for i in range(1, 21)}
